@@ -432,13 +432,16 @@ class LogicalType(type):  # noqa
                     return value
 
             xor = None
+            xor_value = value
 
             for con in cls.args:
                 with context.enter(cls.combinator) as new_context:
                     try:
-                        value = new_context.transformer(value, con)
+                        # every condition is tested against the original input
+                        val = new_context.transformer(value, con)
                         if xor is None:
                             xor = con
+                            xor_value = val
                         else:
                             context.handle_error(
                                 exc.OneOfViolatedError(
@@ -453,6 +456,7 @@ class LogicalType(type):  # noqa
             if xor is not None:
                 # only one condition is satisfied in XOR
                 context.clear_tmp_error()
+                value = xor_value
 
         elif cls.combinator == "~":
             for con in cls.args:
